@@ -34,6 +34,8 @@ pub struct Case {
 }
 
 const DEFAULT_BLOCK: u64 = 1_000_000;
+/// apparent sizes of the huge, almost empty files
+const HUGE: &[u64] = &[(1 << 31) - 1, 1 << 31, (1 << 31) + 4097, (1 << 32) - 1, 1 << 32, (1 << 32) + 12345, 5 << 30];
 
 pub fn eff_block(c: &Case) -> u64 {
     if c.no_progress {
@@ -65,7 +67,26 @@ pub fn strategy() -> BoxedStrategy<Case> {
         .prop_flat_map(|(block, parblock, workers, no_progress, reflink_never, as_tree)| {
             let b = block.unwrap_or(DEFAULT_BLOCK);
             let nfiles = if as_tree { 1..6usize } else { 1..2usize };
-            prop::collection::vec(file_spec(b), nfiles).prop_map(move |files| Case { files, parblock, workers, block, no_progress, reflink_never, as_tree })
+            (prop::collection::vec(file_spec(b), nfiles), prop::option::weighted(0.03, (0usize..HUGE.len(), 1u64..9000, 1u64..9000, any::<bool>()))).prop_map(move |(mut files, huge)| {
+                let mut block = block;
+                if let Some((h, a, z, lead)) = huge {
+                    // apparent sizes around 2^31, 2^32 and beyond, almost entirely hole: offsets that do not fit 32 bits
+                    let total = HUGE[h];
+                    let mut segs = vec![];
+                    if lead {
+                        segs.push(Seg::Hole(total - z));
+                    } else {
+                        segs.push(Seg::Data(a, 1));
+                        segs.push(Seg::Hole(total - a - z));
+                    }
+                    segs.push(Seg::Data(z, 2));
+                    files = vec![FileSpec { content: Content { segs, sync: false }, prior: None }];
+                    if block.map(|b| b < 65536).unwrap_or(false) {
+                        block = Some(1 << 20);
+                    }
+                }
+                Case { files, parblock, workers, block, no_progress, reflink_never, as_tree }
+            })
         })
         .boxed()
 }
@@ -139,6 +160,14 @@ pub fn compare_files(sb: &Sandbox, c: &Case) -> Option<(usize, String)> {
         if sm.len() != dm.len() {
             return Some((i, format!("length differs: src {} dst {}", sm.len(), dm.len())));
         }
+        if sm.len() > (64 << 20) && i64::from(0) == 0 && is_mostly_hole(&src) {
+            // huge sparse files: hole-skipping canonical hash instead of reading gigabytes of zeros
+            match (hash_file(&src), hash_file(&dst)) {
+                (Ok(a), Ok(b)) if a == b => continue,
+                (Ok(_), Ok(_)) => return Some((i, format!("content differs (sparse hash) in a file of {} bytes", sm.len()))),
+                (Err(e), _) | (_, Err(e)) => return Some((i, format!("compare error {e}"))),
+            }
+        }
         match first_diff(&src, &dst) {
             Ok(None) => {}
             Ok(Some(off)) => return Some((i, format!("bytes differ first at offset {} of {}", off, sm.len()))),
@@ -146,6 +175,11 @@ pub fn compare_files(sb: &Sandbox, c: &Case) -> Option<(usize, String)> {
         }
     }
     None
+}
+
+fn is_mostly_hole(p: &std::path::Path) -> bool {
+    use std::os::unix::fs::MetadataExt;
+    std::fs::metadata(p).map(|m| m.blocks() * 512 < m.len() / 8).unwrap_or(false)
 }
 
 fn judge(c: &Case, rec: &mut Rec) -> Verdict {
@@ -197,6 +231,9 @@ fn judge(c: &Case, rec: &mut Rec) -> Verdict {
             if c.no_progress { "noprog" } else { "prog" }
         );
         let new = rec.class(key);
+        if len >= (1 << 31) - 1 {
+            rec.class(format!("huge-sparse|{}|{}", driver, if len >= (1 << 32) { ">=4GiB" } else { ">=2GiB" }));
+        }
         if len > 0 && (gen::nblocks(len, b) >= 2 || f.prior.is_some() || f.content.has_hole()) {
             nontrivial = true;
         }
@@ -331,6 +368,6 @@ impl Check for C01 {
         }
     }
     fn required_classes(&self, _tier: Tier) -> Vec<String> {
-        ["parblock|", "parfile|", "2-8blk", "9-128blk", ">128blk", "prior-longer", "prior-shorter", "k*b+1", "k*b-1", "k*b|", "mid-hole", "noprog"].iter().map(|s| s.to_string()).collect()
+        ["parblock|", "parfile|", "2-8blk", "9-128blk", ">128blk", "prior-longer", "prior-shorter", "k*b+1", "k*b-1", "k*b|", "mid-hole", "noprog", "huge-sparse|parblock|>=4GiB", "huge-sparse|parfile|>=4GiB"].iter().map(|s| s.to_string()).collect()
     }
 }
